@@ -4,6 +4,7 @@ import (
 	"context"
 	"fmt"
 	"sync"
+	"verif/shim/core"
 
 	ipld "github.com/ipld/go-ipld-prime"
 	"github.com/ipld/go-ipld-prime/datamodel"
@@ -41,6 +42,8 @@ type RecTransport struct {
 	Handler datatransfer.EventsHandler
 	// Fail decides the error of a call (nil = ok).
 	Fail func(c TCall) error
+	// OnResume is called when a channel is resumed (the data flows again from here on).
+	OnResume func(chid datatransfer.ChannelID)
 }
 
 func (t *RecTransport) rec(c TCall) error {
@@ -80,7 +83,13 @@ func (t *RecTransport) PauseChannel(ctx context.Context, chid datatransfer.Chann
 	return t.rec(TCall{Op: "pause", Chid: chid})
 }
 func (t *RecTransport) ResumeChannel(ctx context.Context, msg datatransfer.Message, chid datatransfer.ChannelID) error {
-	return t.rec(TCall{Op: "resume", Chid: chid, Msg: msg})
+	err := t.rec(TCall{Op: "resume", Chid: chid, Msg: msg})
+	if t.OnResume != nil {
+		t.OnResume(chid)
+	}
+	// the transport is running again before the caller gets control back: a scheduling point for thread-level cells
+	core.Point("stmt", "transport:resumed")
+	return err
 }
 
 // NumCalls returns the number of calls so far.
